@@ -2,6 +2,7 @@
 # usage: mutant.sh <patch-or-sed-script.sh> <Cxx> [more Cxx...]
 # Applies a change to a scratch worktree of /repo, runs the repo suite there, then the quick checks with VERIF_REPO.
 set -u
+V=${VERIF_HOME:-/verif}   # where the machinery lives (a snapshot when VERIF_HOME is set)
 patch=$1; shift
 d=$(mktemp -d /tmp/mut-XXXXXX); rmdir $d
 git -C /repo worktree add -q --detach $d HEAD || exit 2
@@ -12,9 +13,9 @@ case "$patch" in
   *) git -C $d apply "$patch" || { echo "patch does not apply"; exit 2; } ;;
 esac
 git -C $d diff --stat | tail -1
-/verif/tools/suite.sh $d | head -3
+$V/tools/suite.sh $d | head -3
 for p in "$@"; do
-  VERIF_REPO=$d /verif/check $p quick > $d.out 2>&1; rc=$?
+  VERIF_REPO=$d $V/check $p quick > $d.out 2>&1; rc=$?
   echo "== $p exit=$rc: $(grep -m1 -A1 VIOLATION $d.out | tr '\n' ' ' | cut -c1-300)"
   [ $rc = 2 ] && tail -5 $d.out
   rm -f $d.out
